@@ -520,8 +520,9 @@ structure Closed (P : Store → Prop) : Prop where
 
 /-- relational / graph / vector / raw statements (everything but checkpoint control) -/
 def Op.isData : Op → Bool
-  | .ckpt _ _ => false
-  | .rollback _ => false
+  | .ckpt _ _ _ => false
+  | .rollback _ _ => false
+  | .ckdel _ _ => false
   | .setmax _ => false
   | _ => true
 
@@ -765,8 +766,9 @@ theorem Closed.step (d : Db) (op : Op) (hd : op.isData = true)
   | vbuild => exact Closed.vBuild d h
   | kput c k x e => exact hP.kPut d c k x e h
   | kdel c k => exact hP.kDel d c k h
-  | ckpt ts ord => simp [Op.isData] at hd
-  | rollback i => simp [Op.isData] at hd
+  | ckpt ts ord nm => simp [Op.isData] at hd
+  | rollback i o => simp [Op.isData] at hd
+  | ckdel i o => simp [Op.isData] at hd
   | setmax n => simp [Op.isData] at hd
 
 end StepClosed
@@ -934,9 +936,165 @@ theorem step_frame (d : Db) (op : Op) (hd : op.isData = true) :
   | vbuild => simp only [step]; unfold vBuild; frame_tac
   | kput c k x e => simp only [step]; unfold kPut; frame_tac
   | kdel c k => simp only [step]; unfold kDel; frame_tac
-  | ckpt ts ord => simp [Op.isData] at hd
-  | rollback i => simp [Op.isData] at hd
+  | ckpt ts ord nm => simp [Op.isData] at hd
+  | rollback i o => simp [Op.isData] at hd
+  | ckdel i o => simp [Op.isData] at hd
   | setmax n => simp [Op.isData] at hd
+
+/-! ### the checkpoint listing and id-or-name resolution -/
+
+theorem dedupNat'_mem (l : List Nat) (x : Nat) : x ∈ dedupNat' l ↔ x ∈ l := by
+  induction l with
+  | nil => simp [dedupNat']
+  | cons y ys ih =>
+    simp only [dedupNat', List.mem_cons, List.mem_filter, ih, decide_eq_true_eq]
+    by_cases h : x = y <;> simp [h]
+
+theorem dedupNat'_nodup (l : List Nat) : (dedupNat' l).Nodup := by
+  induction l with
+  | nil => simp [dedupNat']
+  | cons y ys ih =>
+    simp only [dedupNat', List.nodup_cons, List.mem_filter, decide_eq_true_eq]
+    exact ⟨fun h => h.2 rfl, List.Nodup.sublist List.filter_sublist ih⟩
+
+theorem arrange_mem (ord : List Nat) (cps : List (Nat × Nat)) (p : Nat × Nat)
+    (h : p ∈ arrange ord cps) : p ∈ cps := by
+  unfold arrange at h
+  rcases List.mem_append.mp h with h | h
+  · obtain ⟨i, _, hi⟩ := List.mem_filterMap.mp h
+    cases hg : alGet cps i with
+    | none => rw [hg] at hi; cases hi
+    | some ts =>
+      rw [hg] at hi
+      simp only [Option.map_some, Option.some.injEq] at hi
+      subst hi
+      exact alGet_mem cps i ts hg
+  · exact (List.mem_filter.mp h).1
+
+theorem mem_arrange (ord : List Nat) (cps : List (Nat × Nat)) (hn : (cps.map (·.1)).Nodup)
+    (p : Nat × Nat) (h : p ∈ cps) : p ∈ arrange ord cps := by
+  unfold arrange
+  by_cases ho : p.1 ∈ ord
+  · apply List.mem_append_left
+    refine List.mem_filterMap.mpr ⟨p.1, (dedupNat'_mem ord p.1).mpr ho, ?_⟩
+    rw [alGet_some_of_mem cps hn p h]
+    rfl
+  · apply List.mem_append_right
+    exact List.mem_filter.mpr ⟨h, by simpa using ho⟩
+
+theorem filterMap_lookup_keys (cps : List (Nat × Nat)) (l : List Nat) :
+    (l.filterMap fun i => (alGet cps i).map fun ts => (i, ts)).map (·.1) =
+      l.filter fun i => (alGet cps i).isSome := by
+  induction l with
+  | nil => rfl
+  | cons x xs ih =>
+    cases hg : alGet cps x with
+    | none => simp [List.filterMap_cons, hg, ih]
+    | some ts => simp [List.filterMap_cons, hg, ih]
+
+theorem nodup_of_map {α β : Type} (f : α → β) (l : List α) (h : (l.map f).Nodup) : l.Nodup := by
+  induction l with
+  | nil => exact List.nodup_nil
+  | cons x xs ih =>
+    simp only [List.map_cons, List.nodup_cons] at h ⊢
+    exact ⟨fun hm => h.1 (List.mem_map_of_mem hm), ih h.2⟩
+
+theorem arrange_nodup (ord : List Nat) (cps : List (Nat × Nat)) (hn : (cps.map (·.1)).Nodup) :
+    (arrange ord cps).Nodup := by
+  unfold arrange
+  refine List.nodup_append.mpr ⟨?_, ?_, ?_⟩
+  · apply nodup_of_map (·.1)
+    rw [filterMap_lookup_keys]
+    exact List.Nodup.sublist List.filter_sublist (dedupNat'_nodup ord)
+  · exact List.Nodup.sublist List.filter_sublist (nodup_of_map _ _ hn)
+  · intro a ha b hb e
+    subst e
+    obtain ⟨i, hi, hia⟩ := List.mem_filterMap.mp ha
+    have hmem := (dedupNat'_mem ord i).mp hi
+    cases hg : alGet cps i with
+    | none => rw [hg] at hia; cases hia
+    | some ts =>
+      rw [hg] at hia
+      simp only [Option.map_some, Option.some.injEq] at hia
+      subst hia
+      have := (List.mem_filter.mp hb).2
+      simp only [Bool.not_eq_eq_eq_not, Bool.not_true, List.contains_eq_mem, decide_eq_false_iff_not] at this
+      exact this hmem
+
+theorem ckList_perm (ord : List Nat) (cps : List (Nat × Nat)) (hn : (cps.map (·.1)).Nodup) :
+    (ckList ord cps).Perm cps :=
+  (sortDesc_perm _).trans
+    ((List.perm_ext_iff_of_nodup (arrange_nodup ord cps hn) (nodup_of_map _ _ hn)).mpr
+      fun p => ⟨arrange_mem ord cps p, mem_arrange ord cps hn p⟩)
+
+theorem ckList_mem (ord : List Nat) (cps : List (Nat × Nat)) (p : Nat × Nat)
+    (h : p ∈ ckList ord cps) : p ∈ cps :=
+  arrange_mem ord cps p ((sortDesc_perm _).mem_iff.mp h)
+
+theorem mem_ckList (ord : List Nat) (cps : List (Nat × Nat)) (hn : (cps.map (·.1)).Nodup)
+    (p : Nat × Nat) (h : p ∈ cps) : p ∈ ckList ord cps :=
+  (sortDesc_perm _).mem_iff.mpr (mem_arrange ord cps hn p h)
+
+/-- in a newest-first list the first entry satisfying `q` is at least as new as every entry
+    satisfying `q` -/
+theorem find?_newest (q : Nat × Nat → Bool) (l : List (Nat × Nat)) (h : DescSorted l) (a : Nat × Nat)
+    (hf : l.find? q = some a) : ∀ b ∈ l, q b = true → b.2 ≤ a.2 := by
+  induction l with
+  | nil => cases hf
+  | cons y ys ih =>
+    unfold DescSorted at h ih
+    rw [List.pairwise_cons] at h
+    intro b hb hq
+    by_cases hy : q y = true
+    · rw [List.find?_cons_of_pos (by exact hy)] at hf
+      cases hf
+      rcases List.mem_cons.mp hb with hb | hb
+      · subst hb; exact Nat.le_refl _
+      · exact h.1 b hb
+    · rw [List.find?_cons_of_neg (by exact hy)] at hf
+      rcases List.mem_cons.mp hb with hb | hb
+      · subst hb; exact absurd hq hy
+      · exact ih h.2 hf b hb hq
+
+theorem resolve_some (d : Db) (ord : List Nat) (x i : Nat) (h : resolve d ord x = some i) :
+    ∃ ts, (i, ts) ∈ d.st.cps ∧ ckMatches d x (i, ts) = true ∧
+      ∀ b ∈ ckList ord d.st.cps, ckMatches d x b = true → b.2 ≤ ts := by
+  unfold resolve at h
+  cases hf : (ckList ord d.st.cps).find? (ckMatches d x) with
+  | none => rw [hf] at h; cases h
+  | some a =>
+    rw [hf] at h
+    simp only [Option.map_some, Option.some.injEq] at h
+    subst h
+    exact ⟨a.2, ckList_mem ord _ a (List.mem_of_find?_eq_some hf), List.find?_some hf,
+      find?_newest _ _ (sortDesc_sorted _) a hf⟩
+
+theorem resolve_live (d : Db) (ord : List Nat) (x i : Nat) (h : resolve d ord x = some i) :
+    alHas d.st.cps i = true := by
+  obtain ⟨ts, hm, _⟩ := resolve_some d ord x i h
+  exact (alHas_iff _ _).mpr (List.mem_map_of_mem hm)
+
+/-- a live checkpoint matching `x` such that every OTHER live match is strictly older is the one
+    `x` resolves to, whatever the `by_tag` order -/
+theorem resolve_eq_of_newest (d : Db) (ord : List Nat) (x i ts : Nat)
+    (hn : (d.st.cps.map (·.1)).Nodup) (hm : (i, ts) ∈ d.st.cps)
+    (hx : ckMatches d x (i, ts) = true)
+    (hnew : ∀ b ∈ d.st.cps, ckMatches d x b = true → b.1 ≠ i → b.2 < ts) :
+    resolve d ord x = some i := by
+  unfold resolve
+  cases hf : (ckList ord d.st.cps).find? (ckMatches d x) with
+  | none =>
+    rw [List.find?_eq_none] at hf
+    exact absurd hx (by simpa using hf _ (mem_ckList ord _ hn _ hm))
+  | some a =>
+    simp only [Option.map_some, Option.some.injEq]
+    have ha := ckList_mem ord _ a (List.mem_of_find?_eq_some hf)
+    have hle := find?_newest _ _ (sortDesc_sorted _) a hf _ (mem_ckList ord _ hn _ hm) hx
+    by_cases e : a.1 = i
+    · exact e
+    · have := hnew a ha (List.find?_some hf) e
+      simp only at hle
+      omega
 
 /-! ### the database invariant along statement sequences -/
 
@@ -948,14 +1106,40 @@ structure DbInv (d : Db) : Prop where
   cpsLt : ∀ i, alHas d.st.cps i = true → i < d.nextCk
   /-- … also in every archived image (a rollback re-installs the image's list) -/
   archCps : ∀ c ∈ d.arch, ∀ i, alHas c.img.cps i = true → i < d.nextCk
+  /-- a checkpoint id is listed once -/
+  cpsNodup : (d.st.cps.map (·.1)).Nodup
+  archNodup : ∀ c ∈ d.arch, (c.img.cps.map (·.1)).Nodup
+  /-- the listed timestamp of a checkpoint is the one in its blob -/
+  cpsTs : ∀ p ∈ d.st.cps, ∀ c ∈ d.arch, c.id = p.1 → c.ts = p.2
+  archTs : ∀ c' ∈ d.arch, ∀ p ∈ c'.img.cps, ∀ c ∈ d.arch, c.id = p.1 → c.ts = p.2
 
-theorem DbInv.init : DbInv {} := ⟨WF.empty, by simp, by simp, by simp [alHas, alGet], by simp⟩
+theorem DbInv.init : DbInv {} :=
+  ⟨WF.empty, by simp, by simp, by simp [alHas, alGet], by simp, by simp, by simp, by simp, by simp⟩
 
-theorem loadCk_mem (d : Db) (i : Nat) (c : Ckpt) (h : loadCk d i = some c) : c ∈ d.arch ∧ c.id = i := by
+theorem blobOf_mem (d : Db) (i : Nat) (c : Ckpt) (h : blobOf d i = some c) : c ∈ d.arch ∧ c.id = i := by
+  unfold blobOf at h
+  exact ⟨List.mem_of_find?_eq_some h, by simpa using List.find?_some h⟩
+
+theorem DbInv.blobOf_some {d : Db} (h : DbInv d) (i : Nat) (hi : i < d.nextCk) :
+    ∃ c, blobOf d i = some c ∧ c.id = i := by
+  unfold blobOf
+  have hm : i ∈ d.arch.map (·.id) := by rw [h.ids]; exact List.mem_range.mpr hi
+  obtain ⟨c, hc, hci⟩ := List.mem_map.mp hm
+  cases hf : d.arch.find? (fun x => decide (x.id = i)) with
+  | none =>
+    rw [List.find?_eq_none] at hf
+    exact absurd (by simpa using hci) (hf c hc)
+  | some c' => exact ⟨c', rfl, by simpa using List.find?_some hf⟩
+
+theorem loadCk_mem (d : Db) (ord : List Nat) (x : Nat) (c : Ckpt) (h : loadCk d ord x = some c) :
+    c ∈ d.arch ∧ resolve d ord x = some c.id := by
   unfold loadCk at h
-  split at h
-  · exact ⟨List.mem_of_find?_eq_some h, by simpa using List.find?_some h⟩
-  · cases h
+  cases hr : resolve d ord x with
+  | none => rw [hr] at h; cases h
+  | some i =>
+    rw [hr] at h
+    have := blobOf_mem d i c h
+    exact ⟨this.1, by rw [this.2]⟩
 
 theorem put_cps (s : Store) (k : Key) (v : Val) : (s.put k v).cps = s.cps := by
   cases k <;> rfl
@@ -979,16 +1163,39 @@ theorem enforce_subset (max : Nat) (ord : List Nat) (L : List (Nat × Nat)) :
   · exact hp
   · exact (List.mem_filter.mp hp).1
 
+theorem enforce_sublist (max : Nat) (ord : List Nat) (L : List (Nat × Nat)) :
+    (enforce max ord L).Sublist L := by
+  unfold enforce
+  split
+  · exact List.Sublist.refl _
+  · exact List.filter_sublist
+
 theorem DbInv.step {d : Db} (h : DbInv d) (op : Op) : DbInv (step d op).1 := by
   by_cases hd : op.isData = true
   · have hf := step_frame d op hd
     have hc : (Neumann.Ckpt.step d op).1.st.cps = d.st.cps := (cps_closed d.st.cps).step d op hd rfl
     exact ⟨WF.closed.step d op hd h.wf, by rw [hf.1]; exact h.arch, by rw [hf.1, hf.2]; exact h.ids,
-      by rw [hc, hf.2]; exact h.cpsLt, by rw [hf.1, hf.2]; exact h.archCps⟩
+      by rw [hc, hf.2]; exact h.cpsLt, by rw [hf.1, hf.2]; exact h.archCps,
+      by rw [hc]; exact h.cpsNodup, by rw [hf.1]; exact h.archNodup,
+      by rw [hc, hf.1]; exact h.cpsTs, by rw [hf.1]; exact h.archTs⟩
   · cases op with
-    | ckpt ts ord =>
+    | ckpt ts ord nm =>
       simp only [Neumann.Ckpt.step, doCkpt]
-      refine ⟨h.wf.setCps _, ?_, ?_, ?_, ?_⟩
+      have hfresh : d.nextCk ∉ d.st.cps.map (·.1) := by
+        intro hm
+        have := h.cpsLt _ ((alHas_iff _ _).mpr hm); omega
+      have hnd : ((d.st.cps ++ [(d.nextCk, ts)]).map (·.1)).Nodup := by
+        rw [List.map_append]
+        refine List.nodup_append.mpr ⟨h.cpsNodup, by simp, ?_⟩
+        intro a ha b hb
+        simp only [List.map_cons, List.map_nil, List.mem_singleton] at hb
+        subst hb
+        intro e; subst e; exact hfresh ha
+      have hnoid : ∀ c ∈ d.arch, c.id ≠ d.nextCk := by
+        intro c hc e
+        have : c.id ∈ d.arch.map (·.id) := List.mem_map_of_mem hc
+        rw [h.ids, List.mem_range] at this; omega
+      refine ⟨h.wf.setCps _, ?_, ?_, ?_, ?_, ?_, ?_, ?_, ?_⟩
       · intro c hc
         rcases List.mem_append.mp hc with hc | hc
         · exact h.arch c hc
@@ -1008,13 +1215,61 @@ theorem DbInv.step {d : Db} (h : DbInv d) (op : Op) : DbInv (step d op).1 := by
         · have := h.archCps c hc i hi; omega
         · simp only [List.mem_singleton] at hc; subst hc
           have := h.cpsLt i hi; omega
-    | rollback i =>
+      · exact List.Nodup.sublist ((enforce_sublist _ _ _).map _) hnd
+      · intro c hc
+        dsimp only at hc
+        rcases List.mem_append.mp hc with hc | hc
+        · exact h.archNodup c hc
+        · simp only [List.mem_singleton] at hc; subst hc; exact h.cpsNodup
+      · intro p hp c hc hid
+        dsimp only at hp hc
+        have hp' := enforce_subset _ _ _ p hp
+        rcases List.mem_append.mp hp' with hp' | hp' <;> rcases List.mem_append.mp hc with hc | hc
+        · exact h.cpsTs p hp' c hc hid
+        · simp only [List.mem_singleton] at hc; subst hc
+          have hm : p.1 ∈ d.st.cps.map (·.1) := List.mem_map_of_mem hp'
+          simp only at hid
+          rw [← hid] at hm
+          exact absurd hm hfresh
+        · simp only [List.mem_singleton] at hp'; subst hp'
+          exact absurd hid (hnoid c hc)
+        · simp only [List.mem_singleton] at hp' hc; subst hp'; subst hc; rfl
+      · intro c' hc' p hp c hc hid
+        dsimp only at hc' hc
+        have hplt : p.1 < d.nextCk := by
+          rcases List.mem_append.mp hc' with hc' | hc'
+          · exact h.archCps c' hc' p.1 ((alHas_iff _ _).mpr (List.mem_map_of_mem hp))
+          · simp only [List.mem_singleton] at hc'; subst hc'
+            exact h.cpsLt p.1 ((alHas_iff _ _).mpr (List.mem_map_of_mem hp))
+        rcases List.mem_append.mp hc with hc | hc
+        · rcases List.mem_append.mp hc' with hc' | hc'
+          · exact h.archTs c' hc' p hp c hc hid
+          · simp only [List.mem_singleton] at hc'; subst hc'
+            exact h.cpsTs p hp c hc hid
+        · simp only [List.mem_singleton] at hc; subst hc
+          simp only at hid; omega
+    | rollback x o =>
       simp only [Neumann.Ckpt.step, doRollback]
-      cases hl : loadCk d i with
+      cases hl : loadCk d o x with
       | none => exact h
       | some c =>
-        exact ⟨restoreFrom_wf _ _, h.arch, h.ids, h.archCps c (loadCk_mem d i c hl).1, h.archCps⟩
-    | setmax n => exact ⟨h.wf, h.arch, h.ids, h.cpsLt, h.archCps⟩
+        have hc := (loadCk_mem d o x c hl).1
+        exact ⟨restoreFrom_wf _ _, h.arch, h.ids, h.archCps c hc, h.archCps, h.archNodup c hc,
+          h.archNodup, h.archTs c hc, h.archTs⟩
+    | ckdel x o =>
+      simp only [Neumann.Ckpt.step, doCkDel]
+      cases hr : resolve d o x with
+      | none => exact h
+      | some i =>
+        refine ⟨h.wf.setCps _, h.arch, h.ids, ?_, h.archCps, alDel_nodup _ _ h.cpsNodup, h.archNodup,
+          ?_, h.archTs⟩
+        · intro j hj
+          dsimp only at hj
+          exact h.cpsLt j ((alHas_alDel _ _ _).mp hj).2
+        · intro p hp
+          exact h.cpsTs p ((alDel_sublist _ _).subset hp)
+    | setmax n =>
+      exact ⟨h.wf, h.arch, h.ids, h.cpsLt, h.archCps, h.cpsNodup, h.archNodup, h.cpsTs, h.archTs⟩
     | _ => simp [Op.isData] at hd
 
 theorem run_cons (d : Db) (op : Op) (ops : List Op) : run d (op :: ops) = run (step d op).1 ops := rfl
@@ -1030,11 +1285,15 @@ theorem step_arch_prefix (d : Db) (op : Op) : ∃ ext, (step d op).1.arch = d.ar
   by_cases hd : op.isData = true
   · exact ⟨[], by rw [(step_frame d op hd).1]; simp⟩
   · cases op with
-    | ckpt ts ord => exact ⟨_, rfl⟩
-    | rollback i =>
+    | ckpt ts ord nm => exact ⟨_, rfl⟩
+    | rollback i o =>
       refine ⟨[], ?_⟩
       simp only [Neumann.Ckpt.step, doRollback]
-      cases loadCk d i <;> simp
+      cases loadCk d o i <;> simp
+    | ckdel i o =>
+      refine ⟨[], ?_⟩
+      simp only [Neumann.Ckpt.step, doCkDel]
+      cases resolve d o i <;> simp
     | setmax n => exact ⟨[], by simp [Neumann.Ckpt.step]⟩
     | _ => simp [Op.isData] at hd
 
@@ -1047,25 +1306,34 @@ theorem run_arch_prefix (d : Db) (ops : List Op) : ∃ ext, (run d ops).arch = d
     obtain ⟨e2, h2⟩ := ih (step d op).1
     exact ⟨e1 ++ e2, by rw [h2, h1, List.append_assoc]⟩
 
-/-- the blob written by a checkpoint statement is what any later load of its id returns -/
-theorem load_after (d0 : Db) (h : DbInv d0) (ts : Nat) (ord : List Nat) (post : List Op) (c : Ckpt)
-    (hl : loadCk (run (step d0 (.ckpt ts ord)).1 post) d0.nextCk = some c) : c.img = d0.st := by
-  obtain ⟨ext, he⟩ := run_arch_prefix (step d0 (.ckpt ts ord)).1 post
+/-- the blob written by a checkpoint statement is what any later lookup of its id returns:
+    image, name and timestamp are the ones of the statement -/
+theorem blob_after (d0 : Db) (h : DbInv d0) (ts : Nat) (ord : List Nat) (nm : Nat) (post : List Op) :
+    blobOf (run (step d0 (.ckpt ts ord nm)).1 post) d0.nextCk = some ⟨d0.nextCk, ts, nm, d0.st⟩ := by
+  obtain ⟨ext, he⟩ := run_arch_prefix (step d0 (.ckpt ts ord nm)).1 post
+  unfold blobOf
+  rw [he]
+  have h1 : (step d0 (.ckpt ts ord nm)).1.arch = d0.arch ++ [⟨d0.nextCk, ts, nm, d0.st⟩] := rfl
+  rw [h1, List.append_assoc, List.find?_append]
+  have hnone : d0.arch.find? (fun x => decide (x.id = d0.nextCk)) = none := by
+    rw [List.find?_eq_none]
+    intro x hx
+    have : x.id ∈ d0.arch.map (·.id) := List.mem_map_of_mem hx
+    rw [h.ids, List.mem_range] at this
+    simp; omega
+  rw [hnone]
+  simp
+
+theorem load_after (d0 : Db) (h : DbInv d0) (ts : Nat) (ord : List Nat) (nm : Nat) (post : List Op)
+    (o : List Nat) (x : Nat) (c : Ckpt)
+    (hr : resolve (run (step d0 (.ckpt ts ord nm)).1 post) o x = some d0.nextCk)
+    (hl : loadCk (run (step d0 (.ckpt ts ord nm)).1 post) o x = some c) : c.img = d0.st := by
   unfold loadCk at hl
-  split at hl
-  · rw [he] at hl
-    have h1 : (step d0 (.ckpt ts ord)).1.arch = d0.arch ++ [⟨d0.nextCk, ts, d0.st⟩] := rfl
-    rw [h1, List.append_assoc, List.find?_append] at hl
-    have hnone : d0.arch.find? (fun x => decide (x.id = d0.nextCk)) = none := by
-      rw [List.find?_eq_none]
-      intro x hx
-      have : x.id ∈ d0.arch.map (·.id) := List.mem_map_of_mem hx
-      rw [h.ids, List.mem_range] at this
-      simp; omega
-    rw [hnone] at hl
-    simp at hl
-    rw [← hl]
-  · cases hl
+  rw [hr] at hl
+  dsimp only at hl
+  rw [blob_after d0 h ts ord nm post] at hl
+  cases hl
+  rfl
 
 /-! ### observations that read through `scan` / `get` only -/
 
@@ -1096,18 +1364,93 @@ theorem kvObs_congr (d d' : Db) (hmd : d.st.md = d'.st.md) (hg : d.st.get = d'.s
     getEmbedding
   simp only [hmd, hg, hh, hs]
 
+/-! ### rollback to the checkpoint a target string resolves to -/
+
+/-- the listed timestamp of a live checkpoint is its blob's -/
+theorem DbInv.live_mem {d : Db} (h : DbInv d) (i : Nat) (hl : alHas d.st.cps i = true) (c : Ckpt)
+    (hb : blobOf d i = some c) : (i, c.ts) ∈ d.st.cps := by
+  obtain ⟨p, hp, hpi⟩ := List.mem_map.mp ((alHas_iff _ _).mp hl)
+  have hc := blobOf_mem d i c hb
+  have := h.cpsTs p hp c hc.1 (by rw [hc.2, hpi])
+  obtain ⟨a, b⟩ := p
+  simp only at hpi this
+  subst hpi; subst this
+  exact hp
+
+theorem ckMatches_iff (d : Db) (x i ts : Nat) (c : Ckpt) (hb : blobOf d i = some c) :
+    ckMatches d x (i, ts) = true ↔ (i = x ∨ c.name = x) := by
+  unfold ckMatches nameOf
+  rw [hb]
+  simp
+
+/-- what an accepted `ROLLBACK TO x` does when `x` loads the image `d0.st` -/
+theorem rollback_core (d0 d2 : Db) (hwf : WF d0.st) (x : Nat) (o : List Nat) (d3 : Db)
+    (himg : ∀ c, loadCk d2 o x = some c → c.img = d0.st)
+    (hstep : step d2 (.rollback x o) = (d3, .ok)) :
+    d3.st.md = d0.st.md ∧ d3.st.cache = d0.st.cache ∧ d3.st.rel = [] ∧ kvObs d3 = kvObs d0 ∧
+      d3.st.cps = d0.st.cps ∧ WF d3.st ∧ d3 = { d2 with st := Store.restoreFrom d0.st d2.st } := by
+  simp only [step, doRollback] at hstep
+  cases hl : loadCk d2 o x with
+  | none =>
+    rw [hl] at hstep
+    exact absurd (congrArg Prod.snd hstep) (by simp)
+  | some c =>
+    rw [hl] at hstep
+    have himg : c.img = d0.st := himg c hl
+    have hd3 := (congrArg Prod.fst hstep).symm
+    simp only at hd3
+    have hf := restoreFrom_fields (img := c.img) (by rw [himg]; exact hwf) d2.st
+    have hw := restoreFrom_wf c.img d2.st
+    have hst : d3.st = Store.restoreFrom c.img d2.st := by rw [hd3]
+    rw [himg] at hf hw hst hd3
+    have hv := WF.view_eq (hst ▸ hw) hwf (by rw [hst]; exact hf.1) (by rw [hst]; exact hf.2.1)
+    refine ⟨by rw [hst]; exact hf.1, by rw [hst]; exact hf.2.1, by rw [hst]; exact hf.2.2.1, ?_⟩
+    exact ⟨kvObs_congr d3 d0 (by rw [hst]; exact hf.1) hv.1 hv.2.1 hv.2.2,
+      by rw [hst]; exact hf.2.2.2, hst ▸ hw, hd3⟩
+
+/-- an accepted rollback resolved its target -/
+theorem rollback_ok_resolved (d : Db) (x : Nat) (o : List Nat) (h : (step d (.rollback x o)).2 = .ok) :
+    ∃ i, resolve d o x = some i := by
+  simp only [step, doRollback] at h
+  cases hl : loadCk d o x with
+  | none => rw [hl] at h; cases h
+  | some c => exact ⟨c.id, (loadCk_mem d o x c hl).2⟩
+
+/-- a live id that no live checkpoint carries as its NAME resolves to itself -/
+theorem DbInv.resolve_id {d : Db} (h : DbInv d) (o : List Nat) (i : Nat) (hl : alHas d.st.cps i = true)
+    (hno : ∀ j, alHas d.st.cps j = true → nameOf d j ≠ some i) : resolve d o i = some i := by
+  obtain ⟨p, hp, hpi⟩ := List.mem_map.mp ((alHas_iff _ _).mp hl)
+  have hin := mem_ckList o _ h.cpsNodup p hp
+  unfold resolve
+  cases hf : (ckList o d.st.cps).find? (ckMatches d i) with
+  | none =>
+    rw [List.find?_eq_none] at hf
+    have := hf p hin
+    simp [ckMatches, hpi] at this
+  | some a =>
+    simp only [Option.map_some, Option.some.injEq]
+    have hm := List.find?_some hf
+    have ha := ckList_mem o _ a (List.mem_of_find?_eq_some hf)
+    unfold ckMatches at hm
+    simp only [Bool.or_eq_true, decide_eq_true_eq] at hm
+    rcases hm with hm | hm
+    · exact hm
+    · exact absurd hm (hno a.1 ((alHas_iff _ _).mpr (List.mem_map_of_mem ha)))
+
 /-! ### the full property statement (its negation is proved in `Props.lean`) -/
 
 /-- The full statement: for every statement sequence `pre` before the checkpoint (which may itself
     contain checkpoints and rollbacks: repeated cycles, several checkpoints), every sequence `post`
-    after it, every probe set: if `ROLLBACK` to that checkpoint is accepted, the whole observable
+    after it, every probe set, every target string `x` (an id or a name) that resolves to that
+    checkpoint: if `ROLLBACK TO x` is accepted, the whole observable
     image (table scans, index-path queries, graph, embeddings, searches, raw keys) is the one at
     checkpoint time, and no checkpoint that was listed before the rollback is lost by it. -/
 def RollbackExact : Prop :=
-  ∀ (p : Probes) (pre post : List Op) (ts : Nat) (ord : List Nat) (d3 : Db),
+  ∀ (p : Probes) (pre post : List Op) (ts : Nat) (ord : List Nat) (nm : Nat) (x : Nat) (o : List Nat)
+    (d3 : Db),
     let d0 := run {} pre
-    let d2 := run (step d0 (.ckpt ts ord)).1 post
-    step d2 (.rollback d0.nextCk) = (d3, .ok) →
+    let d2 := run (step d0 (.ckpt ts ord nm)).1 post
+    resolve d2 o x = some d0.nextCk → step d2 (.rollback x o) = (d3, .ok) →
       obs p d3 = obs p d0 ∧ ∀ i, alHas d2.st.cps i = true → alHas d3.st.cps i = true
 
 def probes0 : Probes := ⟨[1, 2], [1], [[1, 1, 1]]⟩
